@@ -227,6 +227,9 @@ class CFG:
 
     # ------------------------------------------------------------ loops
     def _for(self, st: ast.For, preds: List[Edge]) -> List[Edge]:
+        if isinstance(st.iter, (ast.Tuple, ast.List)) and 0 < len(st.iter.elts) <= 8 and isinstance(st.target, ast.Name) and not st.orelse \
+                and not any(isinstance(e, ast.Starred) for e in st.iter.elts):
+            return self._unrolled_for(st, preds)
         body_set: Set[int] = set()
         it = self._simple("for_iter", st, preds)
         first = self._new("for_first", st)
@@ -248,6 +251,24 @@ class CFG:
         self.loops.append({"stmt": st, "kind": "for", "iter": it.id, "first": first.id, "next": nxt.id,
                            "bind": bind.id, "body": body_set, "heads": {nxt.id}})
         return after + ctx["breaks"]
+
+    def _unrolled_for(self, st: ast.For, preds: List[Edge]) -> List[Edge]:
+        """``for v in (a, b, c): body`` over a literal display is straight-line code: v = a; body; v = b; body; ...
+        (continue -> next element, break -> after the loop). Analyses then see each element by name."""
+        breaks: List[Edge] = []
+        cur = preds
+        for elt in st.iter.elts:
+            asg = ast.copy_location(ast.Assign(targets=[ast.Name(id=st.target.id, ctx=ast.Store())], value=elt), st)
+            ast.fix_missing_locations(asg)
+            n = self._simple("stmt", asg, cur, origin=st)
+            ctx = {"stmt": st, "breaks": [], "continues": []}
+            self._loop_stack.append(ctx)
+            # the body's AST nodes are shared between the copies; CFG nodes are distinct
+            out = self._stmts(st.body, [(n.id, None)])
+            self._loop_stack.pop()
+            breaks += ctx["breaks"]
+            cur = out + ctx["continues"]
+        return cur + breaks
 
     def _while(self, st: ast.While, preds: List[Edge]) -> List[Edge]:
         body_set: Set[int] = set()
